@@ -11,7 +11,8 @@ func init() {
 			{Name: "H_C14_ivfpq", Tier: "quick", What: "IVFPQ, 3 metrics, shapes {(1,1,1),(2,2,1),(3,1,1)}, nlist<=2, symbolic centroids/codebooks/vectors: assigned to the nearest centroid, residual coded to the nearest codewords, score = distance(query residual, reconstruction), exact top-k over the probed clusters (nprobes in {0,1})", Covers: []string{"full-probe", "partial-probe"}},
 			{Name: "H_C14_codesize", Tier: "quick", What: "every Nbits in 1..17 for both constructors: rejected, or the stored code indexes the nearest of 2^Nbits concrete codewords (first / middle / last)", Covers: []string{"accepted", "rejected"}, Opts: interp.JobOpts{MaxSteps: 200_000_000}},
 			{Name: "H_C14_train_min", Tier: "quick", What: "Train with the smallest accepted training set (Nbits 1..5, nlist 1..2) does not panic and leaves a usable index", Covers: []string{"trained"}},
-			{Name: "H_C14_multi", Tier: "quick", What: "a second Execute on the same builder and a 2-query batch are scored from their own distance tables", Covers: []string{"ran"}},
+			{Name: "H_C14_update", Tier: "quick", What: "PQ and IVFPQ (2 coarse clusters, concrete centroids / codebooks): Remove(id), [Flush,] Add(id) with content in the same or the other cluster, another removal possibly pending; symbolic query coordinate, k any int: exact top-k by reconstruction distance over the live vectors at full probe and over the nearest cluster at one probe, before and after a Flush", Covers: []string{"ran"}},
+			{Name: "H_C14_multi", Tier: "quick", What: "a second Execute on the same builder (also after the index has grown), a node query (= the query with that node's stored vector) and a 2-query batch are scored from their own distance tables", Covers: []string{"ran"}},
 		},
 		Bounds:      []string{"dimension<=3 (sub-vector length 1, 2 and 3), M<=2, nbits<=2 with symbolic codebooks; nbits 1..17 with a concrete codebook (dim=1, M=1)", "n<=2 stored vectors, nlist<=2, nprobes in {0,1}", "k over all of int"},
 		Outside:     []string{"(M,dsub)=(2,2): the implementation adds per-subspace partial sums, the reference per dimension — different float expressions", "the 'no more than the quantisation error' sentence (triangle inequality over the reals; a float tolerance law)", "'a vector equal to its reconstruction is reported at its true distance' is the score clause with recon = v substituted; not run separately", "larger training sets, nlist up to 16, M up to 8"},
